@@ -132,6 +132,8 @@ class Unit:
                 raise ValueError("Only m and M are allowed as concentration units.")
         replacements = {'%v/v': 'L/L', '%w/w': 'g/g', '%w/v': config.default_weight_volume_units}
         if concentration[-4:] in replacements:
+            if not concentration[-5:-4].isspace():
+                raise ValueError("Concentration must be of the form '5 %w/v'.")
             concentration = concentration[:-4] + replacements[concentration[-4:]]
             numerator, denominator = map(str.split, concentration.split('/'))
             numerator[0] = float(numerator[0]) / 100  # percent
